@@ -204,8 +204,58 @@ def run_points(ns, ctx, spec):
 
 
 # ======================================================================================= lock
+_REAL_LOCK_TYPES = (type(threading.Lock()), type(threading.RLock()))
+
+
+def adopt_real_locks(ns, root):
+    """Locks that were NOT created through the fake `threading` namespace while the object was constructed - class-level
+    attributes (created when the class body ran at import time) or module globals - would be real locks outside the
+    controlled scheduler.  Each distinct real lock reachable from the lock object is replaced by ONE controlled lock
+    (identity preserved, so a lock shared between two parts stays shared): class attributes are shadowed on the
+    instance, module globals are swapped and put back by restore_module_locks()."""
+    Fake = ns.rwlock.threading.Lock
+    memo = {}
+
+    def fake_for(real):
+        if id(real) not in memo:
+            memo[id(real)] = Fake()
+        return memo[id(real)]
+
+    objs, seen = [root], set()
+    while objs:
+        o = objs.pop()
+        if id(o) in seen or not hasattr(o, "__dict__"):
+            continue
+        seen.add(id(o))
+        for klass in type(o).__mro__:
+            if klass is object:
+                continue
+            for name, val in list(vars(klass).items()):
+                if isinstance(val, _REAL_LOCK_TYPES) and name not in vars(o):
+                    setattr(o, name, fake_for(val))
+        for name, val in list(vars(o).items()):
+            if isinstance(val, _REAL_LOCK_TYPES):
+                setattr(o, name, fake_for(val))
+            elif hasattr(val, "__dict__") and type(val).__module__ == type(root).__module__:
+                objs.append(val)
+    saved = ns.__dict__.setdefault("_bvm_saved_module_locks", {})
+    for name, val in list(vars(ns.rwlock).items()):
+        if isinstance(val, _REAL_LOCK_TYPES):
+            saved.setdefault(name, val)
+            setattr(ns.rwlock, name, fake_for(val))
+        elif name in saved:
+            setattr(ns.rwlock, name, fake_for(saved[name]))
+    return len(memo)
+
+
+def restore_module_locks(ns):
+    for name, val in ns.__dict__.get("_bvm_saved_module_locks", {}).items():
+        setattr(ns.rwlock, name, val)
+
+
 def lock_bodies(ns, ex, r, w, rep):
     lock = ns.rwlock.RWLock()
+    ex.adopted_locks = adopt_real_locks(ns, lock)
     ex.rw = lock
 
     def reader():
@@ -283,6 +333,7 @@ def run_lock(ns, ctx, spec):
                 break
     finally:
         ns.rwlock.threading = saved
+        restore_module_locks(ns)
     ctx.bin("lock_cfg:" + cfg)
     ctx.bin("lock_complete_exploration")
     ctx.mon("lock_executions", execs)
@@ -344,6 +395,7 @@ def run_lockrand(ns, ctx, spec):
     finally:
         cur["ex"] = None
         ns.rwlock.threading = saved
+        restore_module_locks(ns)
         for c in codes:
             mon.set_local_events(TOOLID, c, 0)
         mon.register_callback(TOOLID, mon.events.LINE, None)
@@ -436,6 +488,7 @@ def replay(rec, ctx):
             ex.run(lock_bodies(ns, ex, rec.get("r", 1), rec.get("w", 1), rec.get("rep", 1)), lock_state)
         finally:
             ns.rwlock.threading = saved
+            restore_module_locks(ns)
         ctx.ev()
         judge_execution(ctx, ex, rec.get("cfg", "replay"), rec)
     elif k == "points":
